@@ -300,7 +300,7 @@ macro_rules! c08_serve {
     };
 }
 
-//@ props=C08,C12 tier=quick timeout=2400 mem=8 cap=3 name=c08_serve_step
+//@ props=C08,C12,C11 tier=quick timeout=2400 mem=8 cap=3 name=c08_serve_step
 //@ functions=BlockHandler::maybe_serve_cached_response, BlockHandler::packet_clone_limited, Packet::set_options_as::<BlockValue>, Packet::set_option
 //@ bounds=cached response: any id / 1-byte token / type, one ETag byte, body of symbolic length 0..40 with symbolic bytes; request: any id / token / type, Block2 num 0..3, block size 16
 //@ what=served payload = body[num*16 .. min((num+1)*16, len)]; more <=> bytes remain; Block2 echoes num/size; cached options repeated; reply carries the request's id and token; Err iff the block starts at or beyond the end (an empty body is served as one empty final block)
